@@ -1366,8 +1366,1071 @@ func c14R2(c *Ctx, ms []*c14Merge) {
 	}
 }
 
-// placeholders filled in below
-func c14R3(c *Ctx) {}
-func c14R4(c *Ctx) {}
+// ---------- R3 ----------
 
-var c14Mutants = []Mutant{}
+func c14OriginIs(f, gen *ssa.Function) bool {
+	if f == nil || gen == nil {
+		return false
+	}
+	if f == gen {
+		return true
+	}
+	return f.Origin() == gen
+}
+
+// c14Derives: v is computed from a value of set (through calls, extracts,
+// conversions, slices, literals).
+func c14Derives(v ssa.Value, set map[ssa.Value]bool, depth int) bool {
+	if depth > 6 || v == nil {
+		return false
+	}
+	for _, r := range Roots(v) {
+		if set[r] {
+			return true
+		}
+		switch u := r.(type) {
+		case *ssa.Extract:
+			if set[u.Tuple] || c14Derives(u.Tuple, set, depth+1) {
+				return true
+			}
+		case *ssa.Call:
+			for _, a := range u.Call.Args {
+				if c14Derives(a, set, depth+1) {
+					return true
+				}
+			}
+		case *ssa.UnOp:
+			if u.Op == token.MUL {
+				if _, isAlloc := u.X.(*ssa.Alloc); !isAlloc && c14Derives(u.X, set, depth+1) {
+					return true
+				}
+			}
+		case *ssa.FieldAddr:
+			if c14Derives(u.X, set, depth+1) {
+				return true
+			}
+		default:
+			if derivesFromAny(r, set, depth+1) {
+				return true
+			}
+		}
+	}
+	return false
+}
+
+// c14ParamOf: v is (a copy of) a parameter of fn, possibly through the heap
+// cell a captured parameter is spilled into; returns the parameter.
+func c14ParamOf(v ssa.Value, fn *ssa.Function) *ssa.Parameter {
+	rs := Roots(v)
+	if len(rs) != 1 {
+		return nil
+	}
+	if p, ok := rs[0].(*ssa.Parameter); ok && p.Parent() == fn {
+		return p
+	}
+	if a := cellOf(rs[0]); a != nil {
+		sts := c14CellStores(a)
+		if len(sts) == 1 {
+			if p, ok := sts[0].Val.(*ssa.Parameter); ok && p.Parent() == fn {
+				return p
+			}
+		}
+	}
+	return nil
+}
+
+type c14Upd struct {
+	U               *ssa.Function
+	DoCall, GetCall ssa.CallInstruction
+	TagCall         *ssa.Call
+	TagFn           *ssa.Function
+	TagVal          ssa.Value
+	TagCell         *ssa.Alloc
+	Prep, Upd       *ssa.Function
+}
+
+// isTag: v denotes the referrers tag computed in U (in U itself or inside one
+// of its closures through the captured cell).
+func (u *c14Upd) isTag(v ssa.Value) bool {
+	v = strip(v)
+	if SameValue(v, u.TagVal) {
+		return true
+	}
+	if u.TagCell != nil {
+		if a := c14FreeCell(v); a == u.TagCell {
+			return true
+		}
+	}
+	return false
+}
+
+func c14R3(c *Ctx) {
+	const R = "C14.R3.serialised-rmw"
+	c.Expect(R, 20)
+	doGen := c.P.Fn(c14PkgSync, "Merge.Do")
+	getGen := c.P.Fn(c14PkgSync, "Pool.Get")
+	if doGen == nil || getGen == nil {
+		c.LostAnchor(R, "~/internal/syncutil.Merge.Do / Pool.Get")
+		return
+	}
+	if !c14HasField(c.P, c14PkgRemote, "Repository", "referrersMergePool") || !c14HasField(c.P, c14PkgRemote, "Repository", "SkipReferrersGC") {
+		c.LostAnchor(R, "~/registry/remote.Repository.{referrersMergePool,SkipReferrersGC}")
+		return
+	}
+	// every user of Merge.Do in the module
+	var us []*c14Upd
+	var fns []*ssa.Function
+	for f := range c.P.All {
+		if inModule(f) && len(f.Blocks) > 0 && fnPkgPath(f) != pkgPath(c14PkgSync) {
+			fns = append(fns, f)
+		}
+	}
+	sort.Slice(fns, func(i, j int) bool { return fns[i].String() < fns[j].String() })
+	for _, f := range fns {
+		for _, call := range Calls(f, func(string) bool { return true }) {
+			if c14OriginIs(StaticCallee(call), doGen) {
+				us = append(us, &c14Upd{U: f, DoCall: call})
+			}
+		}
+	}
+	if len(us) == 0 {
+		c.LostAnchor(R, "a caller of syncutil.Merge.Do in the module (the referrers index updater)")
+		return
+	}
+	for _, u := range us {
+		if fnPkgPath(u.U) != pkgPath(c14PkgRemote) {
+			c.Violation(R, FnName(u.U)+"|merge-user", u.DoCall.Pos(), "unclassified user of syncutil.Merge.Do outside registry/remote")
+			continue
+		}
+		c14R3Updater(c, u, getGen)
+	}
+	c14R3Callers(c, us)
+	c14R3TagInventory(c, us)
+}
+
+func c14R3Updater(c *Ctx, u *c14Upd, getGen *ssa.Function) {
+	const R = "C14.R3.serialised-rmw"
+	U := u.U
+	un := FnName(U)
+	args := u.DoCall.Common().Args
+	if len(args) != 4 {
+		c.LostAnchor(R, un+": Merge.Do(recv, item, prepare, resolve)")
+		return
+	}
+	// the Merge object comes from the repository-wide pool, keyed by the tag
+	ok := false
+	for _, r := range Roots(args[0]) {
+		if ex, isEx := r.(*ssa.Extract); isEx && ex.Index == 0 {
+			if call, isCall := ex.Tuple.(*ssa.Call); isCall && c14OriginIs(StaticCallee(call), getGen) && len(Roots(args[0])) == 1 {
+				u.GetCall = call
+				ok = true
+			}
+		}
+	}
+	if !c.Check(R, un+"|merge-from-pool", u.DoCall.Pos(), ok,
+		ifelse(ok, "the Merge object is the one returned by Pool.Get", "the Merge object does not come from the per-tag pool: concurrent updaters of one index do not share it (unserialised read-modify-write: lost update)")) {
+		return
+	}
+	gargs := u.GetCall.Common().Args
+	fa, isFA := gargs[0].(*ssa.FieldAddr)
+	okPool := isFA && fieldName(fa.X.Type(), fa.Field) == "~/registry/remote.Repository.referrersMergePool"
+	c.Check(R, un+"|pool-is-repository-wide", u.GetCall.Pos(), okPool,
+		ifelse(okPool, "the pool is the Repository.referrersMergePool field", "the pool is not the repository-wide Repository.referrersMergePool: updaters on the same Repository do not meet in one Merge"))
+	// key = tag = tagFn(subject)
+	key := strip(gargs[1])
+	kr := Roots(key)
+	if len(kr) == 1 {
+		if ex, isEx := kr[0].(*ssa.Extract); isEx && ex.Index == 0 {
+			if call, isCall := ex.Tuple.(*ssa.Call); isCall && StaticCallee(call) != nil && inModule(StaticCallee(call)) {
+				u.TagCall, u.TagFn, u.TagVal = call, StaticCallee(call), ex
+			}
+		}
+	}
+	if u.TagCall == nil {
+		c.Undecided(R, un+"|pool-key-is-referrers-tag", u.GetCall.Pos(), "cannot resolve the pool key to the result of a tag-building function")
+		return
+	}
+	if a := cellOf(key); a != nil {
+		u.TagCell = a
+	}
+	okSubj := len(u.TagCall.Call.Args) == 1 && c14ParamOf(u.TagCall.Call.Args[0], U) != nil
+	c.Check(R, un+"|pool-key-is-referrers-tag", u.GetCall.Pos(), okSubj,
+		ifelse(okSubj, "the pool key is "+FnName(u.TagFn)+"(subject parameter)", "the pool key is not the referrers tag of the subject being updated: updaters of one index are not serialised with each other"))
+	// the entry is not released before Do returns
+	okRel := true
+	if done := ResultOf(u.GetCall, 1); done != nil {
+		for a := range Aliases(done) {
+			for _, r := range *a.Referrers() {
+				if call, isCall := r.(*ssa.Call); isCall && call.Call.Value == a && (Reachable(call, u.DoCall.(ssa.Instruction)) || call == u.DoCall) {
+					okRel = false
+				}
+			}
+		}
+	}
+	c.Check(R, un+"|no-release-before-do", u.DoCall.Pos(), okRel,
+		ifelse(okRel, "the pool entry is not released on any path before Merge.Do", "the pool entry can be released before Merge.Do runs: the pool forgets the Merge while it is in use and the next updater gets a fresh one (two concurrent read-modify-write cycles)"))
+	// closures
+	pm, ok1 := args[2].(*ssa.MakeClosure)
+	um, ok2 := args[3].(*ssa.MakeClosure)
+	if !ok1 || !ok2 {
+		c.Undecided(R, un+"|prepare-update-closures", u.DoCall.Pos(), "prepare/update are not function literals of the updater: shape not recognised")
+		return
+	}
+	u.Prep, u.Upd = pm.Fn.(*ssa.Function), um.Fn.(*ssa.Function)
+	P, Up := u.Prep, u.Upd
+	pn, upn := FnName(P), FnName(Up)
+	// tag cell is written once
+	if u.TagCell != nil {
+		sts := c14CellStores(u.TagCell)
+		okT := len(sts) == 1 && SameValue(sts[0].Val, u.TagVal)
+		c.Check(R, un+"|tag-fixed", u.TagCall.Pos(), okT, ifelse(okT, "the referrers tag variable is assigned once", "the referrers tag variable is reassigned: fetch, push and pool key may name different tags"))
+	}
+	// prepare: fetch by tag, publish into the shared cells
+	var fetches []ssa.CallInstruction
+	for _, call := range Calls(P, func(n string) bool { return n != "fmt.Errorf" }) {
+		for _, a := range call.Common().Args {
+			if u.isTag(a) {
+				fetches = append(fetches, call)
+				break
+			}
+		}
+	}
+	if len(fetches) != 1 {
+		c.Violation(R, pn+"|fetches-index-by-tag", P.Pos(), fmt.Sprintf("prepare makes %d calls with the referrers tag (expected exactly the fetch of the current index)", len(fetches)))
+		return
+	}
+	fetch := fetches[0]
+	okF := CalleeName(fetch) == "(*~/registry/remote.Repository).referrersFromIndex"
+	if !okF {
+		c.Undecided(R, pn+"|fetches-index-by-tag", fetch.Pos(), "prepare passes the tag to "+CalleeName(fetch)+", not the confirmed index reader referrersFromIndex: classify it")
+	} else {
+		c.OK(R, pn+"|fetches-index-by-tag", fetch.Pos(), "prepare reads the index through referrersFromIndex(ctx, tag)")
+	}
+	rf := ErrFlow(fetch, ErrFlowOpts{Tolerated: []string{"~/errdef.ErrNotFound"}})
+	c.Check(R, pn+"|fetch-error-surfaces", fetch.Pos(), rf.OK, ifelse(rf.OK, rf.How, "a failed read of the old index (other than not-found) is swallowed: the update would start from an empty list and drop every existing referrer. "+rf.Detail))
+	fetched := map[ssa.Value]bool{fetch.Value(): true}
+	var cellRefs, cellDesc *ssa.Alloc
+	var pubStores []ssa.Instruction
+	for _, fv := range P.FreeVars {
+		for _, r := range *fv.Referrers() {
+			s, isStore := r.(*ssa.Store)
+			if !isStore || s.Addr != ssa.Value(fv) {
+				continue
+			}
+			cell := c14FreeVarAlloc(fv)
+			if cell == nil {
+				continue
+			}
+			src := s.Val
+			if a, isAlloc := src.(*ssa.Alloc); isAlloc {
+				// &indexDesc: the local that received the fetched descriptor
+				okSrc := false
+				for _, st := range storesTo(a) {
+					if c14Derives(st.Val, fetched, 0) {
+						okSrc = true
+					}
+				}
+				if okSrc {
+					cellDesc = cell
+					pubStores = append(pubStores, s)
+				}
+				continue
+			}
+			if c14Derives(src, fetched, 0) {
+				if _, isSlice := src.Type().Underlying().(*types.Slice); isSlice {
+					cellRefs = cell
+					pubStores = append(pubStores, s)
+				}
+			}
+		}
+	}
+	if !c.Check(R, pn+"|publishes-fetched-state", P.Pos(), cellRefs != nil && cellDesc != nil,
+		ifelse(cellRefs != nil && cellDesc != nil, "prepare stores the fetched referrers list and index descriptor into variables shared with update", "prepare does not hand the fetched referrers list / index descriptor to update")) {
+		return
+	}
+	if e := ErrOf(fetch); e != nil {
+		ne, _, _ := NilTests(P, Aliases(e))
+		okPub := len(ne) > 0
+		for _, s := range pubStores {
+			if !MustPass(s, newCut().Edges(ne...)) {
+				okPub = false
+			}
+		}
+		c.Check(R, pn+"|publishes-only-on-success", P.Pos(), okPub, ifelse(okPub, "the shared variables are set only on the nil-error edge of the fetch", "the shared variables can be set from a failed fetch"))
+	}
+	okOnly := true
+	for _, cell := range []*ssa.Alloc{cellRefs, cellDesc} {
+		for _, s := range c14CellStores(cell) {
+			if s.Parent() != P {
+				okOnly = false
+			}
+		}
+	}
+	c.Check(R, un+"|shared-state-written-only-by-prepare", U.Pos(), okOnly, ifelse(okOnly, "only prepare writes oldReferrers/oldIndexDesc", "oldReferrers/oldIndexDesc are also written outside prepare: update may work from a list that is not the one just fetched"))
+
+	// update
+	isCellLoad := func(v ssa.Value, cell *ssa.Alloc) bool { return c14FreeCell(strip(v)) == cell }
+	var apply ssa.CallInstruction
+	for _, call := range Calls(Up, func(string) bool { return true }) {
+		hasOld, hasBatch := false, false
+		for _, a := range call.Common().Args {
+			if isCellLoad(a, cellRefs) {
+				hasOld = true
+			}
+			if len(Up.Params) == 1 && a == ssa.Value(Up.Params[0]) {
+				hasBatch = true
+			}
+		}
+		if hasOld && hasBatch && StaticCallee(call) != nil {
+			apply = call
+		}
+	}
+	if !c.Check(R, upn+"|applies-batch-to-fetched-list", Up.Pos(), apply != nil,
+		ifelse(apply != nil, "update computes the new list from (the list fetched by prepare, the committed batch)", "update does not combine the list fetched by prepare with the whole committed batch: batched changes are lost")) {
+		return
+	}
+	applied := map[ssa.Value]bool{apply.Value(): true}
+	newList := ResultOf(apply, 0)
+	applyErr := ErrOf(apply)
+	var sentinel string
+	if applyErr != nil {
+		al := Aliases(applyErr)
+		for _, i := range Ifs(Up) {
+			cond, _, _ := ifEdges(i)
+			switch x := cond.(type) {
+			case *ssa.BinOp:
+				if al[x.X] && sentinelName(x.Y) != "" {
+					sentinel = sentinelName(x.Y)
+				} else if al[x.Y] && sentinelName(x.X) != "" {
+					sentinel = sentinelName(x.X)
+				}
+			case *ssa.Call:
+				if CalleeName(x) == "errors.Is" && al[x.Call.Args[0]] {
+					sentinel = sentinelName(x.Call.Args[1])
+				}
+			}
+		}
+	}
+	var tol []string
+	if sentinel != "" {
+		tol = []string{sentinel}
+	}
+	ra := ErrFlow(apply, ErrFlowOpts{Tolerated: tol})
+	c.Check(R, upn+"|apply-error-surfaces", apply.Pos(), ra.OK, ifelse(ra.OK, ra.How, ra.Detail))
+	var tolE []Edge
+	if applyErr != nil {
+		tolE = toleratedEdges(Up, Aliases(applyErr), tol)
+	}
+	var pushes, deletes []ssa.CallInstruction
+	for _, call := range Calls(Up, func(n string) bool { return n != "fmt.Errorf" }) {
+		for _, a := range call.Common().Args {
+			if u.isTag(a) {
+				pushes = append(pushes, call)
+				break
+			}
+		}
+		for _, a := range call.Common().Args {
+			if d, isDeref := a.(*ssa.UnOp); isDeref && d.Op == token.MUL && isCellLoad(d.X, cellDesc) {
+				deletes = append(deletes, call)
+				break
+			}
+		}
+	}
+	okKinds := len(pushes) > 0 && len(deletes) > 0
+	for _, p := range pushes {
+		if CalleeName(p) != "(*~/registry/remote.manifestStore).push" {
+			c.Undecided(R, upn+"|effects-classified", p.Pos(), "update passes the referrers tag to "+CalleeName(p)+": not the confirmed index push, classify it")
+			okKinds = false
+		}
+	}
+	for _, d := range deletes {
+		if CalleeName(d) != "(*~/registry/remote.Repository).delete" {
+			c.Undecided(R, upn+"|effects-classified", d.Pos(), "update passes the old index descriptor to "+CalleeName(d)+": not the confirmed delete, classify it")
+			okKinds = false
+		}
+	}
+	if !c.Check(R, upn+"|effects-classified", Up.Pos(), okKinds, ifelse(okKinds, "update pushes the new index under the tag and deletes the old index descriptor", "update lacks the push of the new index under the referrers tag or the delete of the old index")) {
+		return
+	}
+	toI := func(cs []ssa.CallInstruction) []ssa.Instruction {
+		var o []ssa.Instruction
+		for _, x := range cs {
+			o = append(o, x.(ssa.Instruction))
+		}
+		return o
+	}
+	// pushed content derives from the applied list
+	okContent := true
+	for _, p := range pushes {
+		d := false
+		for _, a := range p.Common().Args {
+			if !u.isTag(a) && c14Derives(a, applied, 0) {
+				d = true
+			}
+		}
+		okContent = okContent && d
+	}
+	c.Check(R, upn+"|pushes-the-applied-list", pushes[0].Pos(), okContent, ifelse(okContent, "the pushed index is generated from the list returned by the apply step", "the index pushed under the tag is not generated from the updated list"))
+	// no-update sentinel: nothing is pushed or deleted
+	okNo := len(tolE) > 0
+	for _, e := range tolE {
+		for _, x := range append(toI(pushes), toI(deletes)...) {
+			if reach(e.To, 0, x, nil) {
+				okNo = false
+			}
+		}
+	}
+	c.Check(R, upn+"|no-update-leaves-index-alone", apply.Pos(), okNo,
+		ifelse(okNo, "on "+sentinel+" neither push nor delete is reachable", "when the apply step reports that nothing changed, update can still delete (or re-push) the index: the unchanged, still current index is deleted and all referrers of the subject vanish"))
+	// ordering
+	okOrd := true
+	for _, d := range deletes {
+		for _, p := range pushes {
+			if Reachable(d.(ssa.Instruction), p.(ssa.Instruction)) {
+				okOrd = false
+			}
+		}
+		cu := newCut().Calls(pushes)
+		if newList != nil {
+			cu.Edges(lenZeroEdges(Up, newList)...)
+		}
+		if !MustPass(d.(ssa.Instruction), cu) {
+			okOrd = false
+		}
+	}
+	c.Check(R, upn+"|push-precedes-delete", deletes[0].Pos(), okOrd,
+		ifelse(okOrd, "every path to the delete of the old index has pushed the new one, or the new list is empty", "the old index can be deleted before (or without) the push of a non-empty new index: a crash or failure in between leaves the subject without any referrers index"))
+	for i, p := range pushes {
+		rp := ErrFlow(p, ErrFlowOpts{})
+		okP := rp.OK
+		if e := ErrOf(p); e != nil {
+			_, nn, _ := NilTests(Up, Aliases(e))
+			for _, ed := range nn {
+				for _, d := range deletes {
+					if reach(ed.To, 0, d.(ssa.Instruction), nil) {
+						okP = false
+					}
+				}
+			}
+		}
+		c.Check(R, fmt.Sprintf("%s|push#%d-failure-stops", upn, i+1), p.Pos(), okP,
+			ifelse(okP, "a failed push is returned and the old index is not deleted", "after a failed push of the new index update continues (old index deleted, or nil returned): referrers are lost. "+rp.Detail))
+	}
+	// delete iff GC enabled and an old index exists
+	gcLoads := map[ssa.Value]bool{}
+	for _, ld := range c14FieldLoads(Up, "~/registry/remote.Repository", "SkipReferrersGC") {
+		gcLoads[ld] = true
+	}
+	skipT, skipF := BoolTests(Up, gcLoads)
+	descLoads := map[ssa.Value]bool{}
+	AllInstrs(Up, func(in ssa.Instruction) {
+		if ld, isLd := in.(*ssa.UnOp); isLd && ld.Op == token.MUL && isCellLoad(ld, cellDesc) {
+			descLoads[ld] = true
+		}
+	})
+	descNil, descNonNil, _ := NilTests(Up, descLoads)
+	okGuard := len(skipF) > 0 && len(descNonNil) > 0
+	for _, d := range deletes {
+		if !MustPass(d.(ssa.Instruction), newCut().Edges(skipF...)) || !MustPass(d.(ssa.Instruction), newCut().Edges(descNonNil...)) {
+			okGuard = false
+		}
+	}
+	c.Check(R, upn+"|delete-only-if-gc-and-old-index", deletes[0].Pos(), okGuard,
+		ifelse(okGuard, "the delete is reached only with SkipReferrersGC==false and oldIndexDesc!=nil", "the old index can be deleted with SkipReferrersGC set, or dereferenced when no old index exists"))
+	errVals := map[ssa.Value]bool{}
+	AllInstrs(Up, func(in ssa.Instruction) {
+		if v, isV := in.(ssa.Value); isV && isErrorType(v.Type()) {
+			if _, isCall := in.(*ssa.Call); isCall {
+				errVals[v] = true
+			}
+			if _, isEx := in.(*ssa.Extract); isEx {
+				errVals[v] = true
+			}
+		}
+	})
+	_, errNonNil, _ := NilTests(Up, errVals)
+	cuDone := newCut().Calls(deletes).Edges(skipT...).Edges(descNil...).Edges(tolE...).Edges(errNonNil...)
+	okIff := true
+	for _, ret := range Returns(Up) {
+		if ReachableFromEntry(ret) && !MustPass(ret, cuDone) {
+			okIff = false
+		}
+	}
+	c.Check(R, upn+"|superseded-index-deleted", deletes[0].Pos(), okIff,
+		ifelse(okIff, "every successful path either deletes the old index, or GC is skipped, or there was no old index, or nothing changed", "a successful update can return without deleting the superseded index although GC is enabled and an old index exists (dangling index manifests accumulate)"))
+	// a failed delete is reported as ReferrersError{Op: opDeleteReferrersIndex}
+	var opConst string
+	if k, isK := c.P.Obj(c14PkgRemote, "opDeleteReferrersIndex").(*types.Const); isK && k.Val().Kind() == constant.String {
+		opConst = constant.StringVal(k.Val())
+	} else {
+		c.LostAnchor(R, "constant ~/registry/remote.opDeleteReferrersIndex")
+		return
+	}
+	for i, d := range deletes {
+		rd := ErrFlow(d, ErrFlowOpts{})
+		okD := rd.OK
+		detail := rd.Detail
+		if e := ErrOf(d); e != nil && okD {
+			_, nn, _ := NilTests(Up, Aliases(e))
+			n := 0
+			for _, a := range RetAtoms(Up, ErrResultIndex(Up.Signature)) {
+				from := false
+				for _, ed := range nn {
+					if reach(ed.To, 0, a.Ret, nil) {
+						from = true
+					}
+				}
+				if !from {
+					continue
+				}
+				n++
+				mi, isMI := a.Val.(*ssa.MakeInterface)
+				if !isMI || c14NamedOf(mi.X.Type()) != "~/registry/remote.ReferrersError" {
+					okD, detail = false, "the value returned after a failed delete is not a *ReferrersError"
+					continue
+				}
+				al, isAlloc := mi.X.(*ssa.Alloc)
+				if !isAlloc {
+					okD, detail = false, "cannot resolve the returned *ReferrersError to a literal"
+					continue
+				}
+				opOK, errOK := false, false
+				for _, r := range *al.Referrers() {
+					fa, isFA := r.(*ssa.FieldAddr)
+					if !isFA {
+						continue
+					}
+					name := fieldName(fa.X.Type(), fa.Field)
+					for _, r2 := range *fa.Referrers() {
+						st, isSt := r2.(*ssa.Store)
+						if !isSt {
+							continue
+						}
+						if strings.HasSuffix(name, ".Op") {
+							if s, isS := constString(st.Val); isS && s == opConst {
+								opOK = true
+							}
+						}
+						if strings.HasSuffix(name, ".Err") && c14Derives(st.Val, Aliases(e), 0) {
+							errOK = true
+						}
+					}
+				}
+				if !opOK || !errOK {
+					okD, detail = false, "the returned ReferrersError does not carry Op=opDeleteReferrersIndex and the delete's error"
+				}
+			}
+			if n == 0 {
+				okD, detail = false, "no return on the failure edge of the delete"
+			}
+		}
+		c.Check(R, fmt.Sprintf("%s|delete#%d-failure-is-index-delete-error", upn, i+1), d.Pos(), okD,
+			ifelse(okD, "a failed delete of the old index is returned as *ReferrersError{Op: "+opConst+", Err: wraps the cause}", "a failed delete of the superseded index is not reported as the referrers-index-delete error callers are told to tolerate: "+detail))
+	}
+}
+
+// c14Evidence returns, for function f, the edges on which the Referrers API is
+// known not to be (known as) supported, and the complementary edges.
+func c14Evidence(c *Ctx, f *ssa.Function, supported int64) (notAvail, avail []Edge) {
+	probe := map[ssa.Value]bool{}
+	state := map[ssa.Value]bool{}
+	for _, call := range Calls(f, func(string) bool { return true }) {
+		g := StaticCallee(call)
+		if g == nil || !inModule(g) || call.Value() == nil {
+			continue
+		}
+		res := g.Signature.Results()
+		switch {
+		case res.Len() == 2 && ErrResultIndex(g.Signature) == 1 && types.Identical(res.At(0).Type(), types.Typ[types.Bool]) &&
+			len(CallsTo(g, "(*~/registry/remote.Repository).SetReferrersCapability")) > 0:
+			if ok := ResultOf(call, 0); ok != nil {
+				for a := range Aliases(ok) {
+					probe[a] = true
+				}
+			}
+		case res.Len() == 1 && c14ReturnsAtomicState(g):
+			// the recorded state is evidence only when it is read after an
+			// exchange that could have recorded "supported" (a callee that sets
+			// the capability from the registry's answer)
+			var probes []ssa.CallInstruction
+			for _, pc := range Calls(f, func(string) bool { return true }) {
+				pg := StaticCallee(pc)
+				if pg == nil || !inModule(pg) || pc == call {
+					continue
+				}
+				if reachesCall(pg, 3, func(n string, _ ssa.CallInstruction) bool {
+					return n == "(*~/registry/remote.Repository).SetReferrersCapability"
+				}) {
+					probes = append(probes, pc)
+				}
+			}
+			if len(probes) == 0 || !MustPass(call.(ssa.Instruction), newCut().Calls(probes)) {
+				continue
+			}
+			for a := range Aliases(call.Value()) {
+				state[a] = true
+			}
+		}
+	}
+	t, fl := BoolTests(f, probe)
+	avail, notAvail = append(avail, t...), append(notAvail, fl...)
+	for _, i := range Ifs(f) {
+		cond, te, fe := ifEdges(i)
+		bo, ok := cond.(*ssa.BinOp)
+		if !ok || (bo.Op != token.EQL && bo.Op != token.NEQ) {
+			continue
+		}
+		var k ssa.Value
+		if state[bo.X] {
+			k = bo.Y
+		} else if state[bo.Y] {
+			k = bo.X
+		} else {
+			continue
+		}
+		if n, isK := constInt(k); !isK || n != supported {
+			continue
+		}
+		if bo.Op == token.EQL {
+			avail, notAvail = append(avail, te), append(notAvail, fe)
+		} else {
+			avail, notAvail = append(avail, fe), append(notAvail, te)
+		}
+	}
+	return
+}
+
+// c14ReturnsAtomicState: g returns atomic.LoadInt32(&x.referrersState).
+func c14ReturnsAtomicState(g *ssa.Function) bool {
+	n := 0
+	for _, a := range RetAtoms(g, 0) {
+		call, ok := a.Val.(*ssa.Call)
+		if !ok || CalleeName(call) != "sync/atomic.LoadInt32" {
+			return false
+		}
+		fa, ok := call.Call.Args[0].(*ssa.FieldAddr)
+		if !ok || fieldName(fa.X.Type(), fa.Field) != "~/registry/remote.Repository.referrersState" {
+			return false
+		}
+		n++
+	}
+	return n > 0
+}
+
+func c14R3Callers(c *Ctx, us []*c14Upd) {
+	const R = "C14.R3.indexing-iff-subject-and-no-api"
+	c.Expect(R, 6)
+	k, ok := c.P.Obj(c14PkgRemote, "referrersStateSupported").(*types.Const)
+	if !ok {
+		c.LostAnchor(R, "constant ~/registry/remote.referrersStateSupported")
+		return
+	}
+	supported, _ := constant.Int64Val(k.Val())
+	isU := map[*ssa.Function]bool{}
+	for _, u := range us {
+		isU[u.U] = true
+	}
+	fns := c.P.FuncsOfPkg(c14PkgRemote)
+	callersOf := func(g *ssa.Function) []ssa.CallInstruction {
+		var out []ssa.CallInstruction
+		for _, f := range fns {
+			for _, call := range Calls(f, func(string) bool { return true }) {
+				if StaticCallee(call) == g {
+					out = append(out, call)
+				}
+			}
+		}
+		return out
+	}
+	var guarded func(call ssa.CallInstruction, depth int) (bool, string)
+	guarded = func(call ssa.CallInstruction, depth int) (bool, string) {
+		f := call.Parent()
+		notAvail, _ := c14Evidence(c, f, supported)
+		if len(notAvail) > 0 && MustPass(call.(ssa.Instruction), newCut().Edges(notAvail...)) {
+			return true, "in " + FnName(f)
+		}
+		if depth >= 2 {
+			return false, FnName(f) + " reaches it without testing the capability"
+		}
+		if f.Object() != nil && f.Object().Exported() {
+			return false, "exported " + FnName(f) + " reaches it without testing the capability"
+		}
+		cs := callersOf(f)
+		if len(cs) == 0 {
+			return false, FnName(f) + " has no static caller that tests the capability"
+		}
+		for _, cc := range cs {
+			if ok, why := guarded(cc, depth+1); !ok {
+				return false, why
+			}
+		}
+		return true, "in every caller of " + FnName(f)
+	}
+	n := 0
+	for _, f := range fns {
+		for _, call := range Calls(f, func(string) bool { return true }) {
+			if !isU[StaticCallee(call)] {
+				continue
+			}
+			n++
+			fn := FnName(f)
+			// subject present
+			subj := map[ssa.Value]bool{}
+			AllInstrs(f, func(in ssa.Instruction) {
+				if ld, ok := in.(*ssa.UnOp); ok && ld.Op == token.MUL && isFieldLoad(ld, "Subject") {
+					if _, isPtr := ld.Type().Underlying().(*types.Pointer); isPtr {
+						subj[ld] = true
+					}
+				}
+			})
+			_, nonNil, _ := NilTests(f, subj)
+			okS := len(nonNil) > 0 && MustPass(call.(ssa.Instruction), newCut().Edges(nonNil...))
+			// the subject argument is the decoded subject
+			okArg := false
+			for _, a := range call.Common().Args {
+				rs := Roots(a)
+				all := len(rs) > 0
+				for _, r := range rs {
+					d, isDeref := r.(*ssa.UnOp)
+					if !isDeref || d.Op != token.MUL || !isFieldLoad(d.X, "Subject") {
+						all = false
+					}
+				}
+				if all {
+					okArg = true
+				}
+			}
+			c.Check(R, fn+"|only-with-subject", call.Pos(), okS && okArg,
+				ifelse(okS && okArg, "the index update is reached only on the Subject!=nil edge and is given the decoded subject", "the referrers index update is reached without a (decoded) subject, or is given another descriptor than the manifest's subject"))
+			okG, why := guarded(call, 0)
+			c.Check(R, fn+"|only-without-referrers-api", call.Pos(), okG,
+				ifelse(okG, "every path to the index update has seen the Referrers API as not supported ("+why+")", "the client-side index is updated although the Referrers API may be known as supported: "+why))
+			// converse: with a subject and no API the update is not skipped
+			_, avail := c14Evidence(c, f, supported)
+			errVals := map[ssa.Value]bool{}
+			AllInstrs(f, func(in ssa.Instruction) {
+				if v, isV := in.(ssa.Value); isV && isErrorType(v.Type()) {
+					switch in.(type) {
+					case *ssa.Call, *ssa.Extract:
+						errVals[v] = true
+					}
+				}
+			})
+			_, errNonNil, _ := NilTests(f, errVals)
+			var ucalls []ssa.CallInstruction
+			for _, x := range Calls(f, func(string) bool { return true }) {
+				if isU[StaticCallee(x)] {
+					ucalls = append(ucalls, x)
+				}
+			}
+			cu := newCut().Calls(ucalls).Edges(avail...).Edges(errNonNil...)
+			okC := len(nonNil) > 0
+			for _, e := range nonNil {
+				if c14AnyReturnReachable(e.To, cu) != nil {
+					okC = false
+				}
+			}
+			c.Check(R, fn+"|never-skipped-with-subject", call.Pos(), okC,
+				ifelse(okC, "once a subject was decoded every non-error path updates the index unless the Referrers API is available", "a manifest with a subject can be pushed/deleted without updating the referrers index although the registry has no Referrers API: the referrer is never listed (or listed forever)"))
+		}
+	}
+	if n == 0 {
+		c.LostAnchor(R, "callers of the referrers index updater")
+	}
+}
+
+// c14R3TagInventory: who receives a referrers tag.  Every call that is handed
+// the result of the tag builder (directly, through a captured variable, or one
+// level down through a parameter) must be on the confirmed list; the only
+// write among them is the push in the update closure.
+func c14R3TagInventory(c *Ctx, us []*c14Upd) {
+	const R = "C14.R3.referrers-tag-users"
+	c.Expect(R, 7)
+	var tagFn *ssa.Function
+	for _, u := range us {
+		if u.TagFn != nil {
+			tagFn = u.TagFn
+		}
+	}
+	if tagFn == nil {
+		c.LostAnchor(R, "the referrers tag builder (producer of the pool key)")
+		return
+	}
+	table := map[string]string{
+		"(*~/registry/remote.manifestStore).updateReferrersIndex|(*~/internal/syncutil.Pool[T]).Get":                   "pool key (serialisation point)",
+		"(*~/registry/remote.manifestStore).updateReferrersIndex$1|(*~/registry/remote.Repository).referrersFromIndex": "read of the current index inside prepare",
+		"(*~/registry/remote.manifestStore).updateReferrersIndex$2|(*~/registry/remote.manifestStore).push":            "THE write: push of the new index inside the update closure run by Merge.Do",
+		"(*~/registry/remote.Repository).referrersByTagSchema|(*~/registry/remote.Repository).referrersFromIndex":      "read-only listing",
+		"(*~/registry/remote.Repository).referrersFromIndex|(*~/registry/remote.Repository).FetchReference":            "read (GET by tag)",
+		"(*~/registry/remote.Repository).referrersFromIndex|fmt.Errorf":                                                "error text",
+		"(*~/registry/remote.manifestStore).updateReferrersIndex$2|fmt.Errorf":                                         "error text",
+		"(*~/registry/remote.manifestStore).updateReferrersIndex$1|fmt.Errorf":                                         "error text",
+		"(*~/registry/remote.Repository).referrersByTagSchema|fmt.Errorf":                                              "error text",
+		"(*~/registry/remote.manifestStore).updateReferrersIndex|fmt.Errorf":                                           "error text",
+	}
+	required := []string{
+		"(*~/registry/remote.manifestStore).updateReferrersIndex|(*~/internal/syncutil.Pool[T]).Get",
+		"(*~/registry/remote.manifestStore).updateReferrersIndex$2|(*~/registry/remote.manifestStore).push",
+	}
+	seen := map[string]token.Pos{}
+	argIs := func(a ssa.Value, is func(ssa.Value) bool) bool {
+		if is(strip(a)) {
+			return true
+		}
+		// variadic []any{..., tag, ...}
+		if sl, ok := a.(*ssa.Slice); ok {
+			if al, ok := sl.X.(*ssa.Alloc); ok {
+				for _, r := range *al.Referrers() {
+					if ia, ok := r.(*ssa.IndexAddr); ok {
+						for _, r2 := range *ia.Referrers() {
+							if st, ok := r2.(*ssa.Store); ok && is(strip(st.Val)) {
+								return true
+							}
+						}
+					}
+				}
+			}
+		}
+		return false
+	}
+	var down []struct {
+		g   *ssa.Function
+		idx int
+	}
+	record := func(f *ssa.Function, is func(ssa.Value) bool, follow bool) {
+		for _, call := range Calls(f, func(n string) bool { return !strings.HasPrefix(n, "builtin:") }) {
+			for i, a := range call.Common().Args {
+				if !argIs(a, is) {
+					continue
+				}
+				k := FnName(f) + "|" + CalleeName(call)
+				if _, ok := seen[k]; !ok {
+					seen[k] = call.Pos()
+				}
+				if g := StaticCallee(call); follow && g != nil && inModule(g) && fnPkgPath(g) == pkgPath(c14PkgRemote) && i < len(g.Params) {
+					down = append(down, struct {
+						g   *ssa.Function
+						idx int
+					}{g, i})
+				}
+			}
+		}
+	}
+	nTagCalls := 0
+	theWrite := c.P.Fn(c14PkgRemote, "manifestStore.push")
+	if theWrite == nil {
+		c.LostAnchor(R, "~/registry/remote.manifestStore.push")
+		return
+	}
+	for _, f := range c.P.FuncsOfPkg(c14PkgRemote) {
+		for _, tc := range Calls(f, func(string) bool { return true }) {
+			if StaticCallee(tc) != tagFn {
+				continue
+			}
+			nTagCalls++
+			tv := ResultOf(tc, 0)
+			if tv == nil {
+				continue
+			}
+			al := Aliases(tv)
+			var cells []*ssa.Alloc
+			for _, r := range *tv.Referrers() {
+				if st, ok := r.(*ssa.Store); ok && st.Val == tv {
+					if a, ok := st.Addr.(*ssa.Alloc); ok {
+						cells = append(cells, a)
+					}
+				}
+			}
+			record(f, func(v ssa.Value) bool { return al[v] }, true)
+			for _, an := range Anons(f) {
+				record(an, func(v ssa.Value) bool {
+					a := c14FreeCell(v)
+					if a == nil {
+						return false
+					}
+					for _, cell := range cells {
+						if a == cell {
+							return true
+						}
+					}
+					return false
+				}, true)
+			}
+		}
+	}
+	doneDown := map[*ssa.Function]bool{}
+	for _, d := range down {
+		if doneDown[d.g] || d.g == theWrite {
+			continue // the write itself is the effect; its internals belong to C13
+		}
+		doneDown[d.g] = true
+		p := d.g.Params[d.idx]
+		al := Aliases(p)
+		record(d.g, func(v ssa.Value) bool { return al[v] }, false)
+	}
+	if nTagCalls < 2 {
+		c.LostAnchor(R, "calls of the referrers tag builder "+FnName(tagFn))
+	}
+	keys := make([]string, 0, len(seen))
+	for k := range seen {
+		keys = append(keys, k)
+	}
+	sort.Strings(keys)
+	for _, k := range keys {
+		if role, ok := table[k]; ok {
+			c.Exists(R, k, seen[k], true, role)
+		} else {
+			c.Violation(R, k, seen[k], "unclassified use of a referrers tag: this call receives a referrers tag but is not on the confirmed list (read of the index, pool key, or the single push inside the Merge-protected update closure); a push/tag/delete by referrers tag outside Merge.Do is an unserialised read-modify-write")
+		}
+	}
+	for _, k := range required {
+		if _, ok := seen[k]; !ok {
+			c.ob(R, k, token.NoPos, Lost, true, "required use of the referrers tag no longer present: "+table[k])
+		}
+	}
+}
+
+// ---------- R4 ----------
+
+func c14R4(c *Ctx) {
+	const R = "C14.R4.capability-never-flips"
+	c.Expect(R, 2)
+	if !c14HasField(c.P, c14PkgRemote, "Repository", "referrersState") {
+		c.LostAnchor(R, "field ~/registry/remote.Repository.referrersState")
+		return
+	}
+	k, ok := c.P.Obj(c14PkgRemote, "referrersStateUnknown").(*types.Const)
+	if !ok {
+		c.LostAnchor(R, "constant ~/registry/remote.referrersStateUnknown")
+		return
+	}
+	unknown, _ := constant.Int64Val(k.Val())
+	repoT := c.P.Named(c14PkgRemote, "Repository")
+	var fns []*ssa.Function
+	for f := range c.P.All {
+		if inModule(f) && len(f.Blocks) > 0 {
+			fns = append(fns, f)
+		}
+	}
+	sort.Slice(fns, func(i, j int) bool { return fns[i].String() < fns[j].String() })
+	nCAS, nLoad := 0, 0
+	for _, f := range fns {
+		idx := map[string]int{}
+		for _, fa := range c14FieldAddrsAny(f, repoT, "referrersState") {
+			for _, r := range *fa.Referrers() {
+				if _, dbg := r.(*ssa.DebugRef); dbg {
+					continue
+				}
+				in := r.(ssa.Instruction)
+				call, isCall := r.(*ssa.Call)
+				name := ""
+				if isCall {
+					name = CalleeName(call)
+				}
+				switch {
+				case isCall && name == "sync/atomic.LoadInt32":
+					nLoad++
+					idx["load"]++
+					c.Exists(R, fmt.Sprintf("%s|atomic-load#%d", FnName(f), idx["load"]), in.Pos(), true, "atomic read of the capability")
+				case isCall && name == "sync/atomic.CompareAndSwapInt32" && call.Call.Args[0] == ssa.Value(fa):
+					nCAS++
+					idx["cas"]++
+					old, okOld := constInt(call.Call.Args[1])
+					okNew := true
+					for _, nv := range Roots(call.Call.Args[2]) {
+						if n, isK := constInt(nv); !isK || n == unknown {
+							okNew = false
+						}
+					}
+					okCAS := okOld && old == unknown && okNew
+					c.Check(R, fmt.Sprintf("%s|cas-from-unknown#%d", FnName(f), idx["cas"]), in.Pos(), okCAS,
+						ifelse(okCAS, "the only write is CompareAndSwap(unknown -> supported|unsupported)", "the capability can be swapped from a known state (or back to unknown): a repository detected as lacking the Referrers API flips while index updates are in flight, and half of the referrers are recorded nowhere"))
+				default:
+					idx["other"]++
+					c.Violation(R, fmt.Sprintf("%s|non-atomic-access#%d", FnName(f), idx["other"]), in.Pos(),
+						"Repository.referrersState is accessed other than by atomic.LoadInt32 / atomic.CompareAndSwapInt32(unknown, state): a plain or unconditional write lets the detected capability flip, a plain read races with the CAS")
+				}
+			}
+		}
+		// whole-struct copies of a Repository carry the state along
+		AllInstrs(f, func(in ssa.Instruction) {
+			ld, ok := in.(*ssa.UnOp)
+			if !ok || ld.Op != token.MUL || repoT == nil {
+				return
+			}
+			if _, isStruct := ld.Type().Underlying().(*types.Struct); !isStruct || !types.Identical(ld.Type().Underlying(), repoT.Underlying()) {
+				return
+			}
+			if a, isAlloc := ld.X.(*ssa.Alloc); isAlloc && len(c14CellStores(a)) == 0 {
+				return // zero value
+			}
+			idx["copy"]++
+			c.Violation(R, fmt.Sprintf("%s|repository-copied-by-value#%d", FnName(f), idx["copy"]), in.Pos(),
+				"a Repository (or RepositoryOptions) value is copied as a whole, including referrersState and the merge pool: the copy's capability can diverge from the original's and their index updates are not serialised")
+		})
+	}
+	if nCAS == 0 {
+		c.LostAnchor(R, "atomic.CompareAndSwapInt32(&Repository.referrersState, ...)")
+	}
+	if nLoad == 0 {
+		c.LostAnchor(R, "atomic.LoadInt32(&Repository.referrersState)")
+	}
+}
+
+// c14FieldAddrsAny: FieldAddrs of field `field` on any named type whose
+// underlying struct is identical to named's (Repository and RepositoryOptions).
+func c14FieldAddrsAny(fn *ssa.Function, named *types.Named, field string) []*ssa.FieldAddr {
+	var out []*ssa.FieldAddr
+	if named == nil {
+		return nil
+	}
+	AllInstrs(fn, func(in ssa.Instruction) {
+		fa, ok := in.(*ssa.FieldAddr)
+		if !ok {
+			return
+		}
+		pt, ok := fa.X.Type().Underlying().(*types.Pointer)
+		if !ok {
+			return
+		}
+		st, ok := pt.Elem().Underlying().(*types.Struct)
+		if !ok || !types.Identical(st, named.Underlying()) {
+			return
+		}
+		if st.Field(fa.Field).Name() == field {
+			out = append(out, fa)
+		}
+	})
+	return out
+}
+
+var c14Mutants = []Mutant{
+	// R1
+	{Name: "complete-skipped-on-prepare-error", File: "internal/syncutil/merge.go", Old: "\t\terr := prepare()\n\t\titems := m.commit()\n", New: "\t\terr := prepare()\n\t\tif err != nil {\n\t\t\treturn err\n\t\t}\n\t\titems := m.commit()\n", Expect: "C14.R1"},
+	{Name: "resolve-not-given-committed-slice", File: "internal/syncutil/merge.go", Old: "\t\t\terr = resolve(items)\n", New: "\t\t\terr = resolve(items[:1])\n", Expect: "C14.R1"},
+	{Name: "one-failure-notice-too-many", File: "internal/syncutil/merge.go", Old: "\t\tremaining := len(m.items) - 1\n", New: "\t\tremaining := len(m.items)\n", Expect: "C14.R1"},
+	{Name: "promoted-batch-gets-no-main", File: "internal/syncutil/merge.go", Old: "\tif m.status != nil {\n\t\tm.status <- mergeStatus{main: true}\n\t}\n}", New: "}", Expect: "C14.R1"},
+	{Name: "pending-item-joins-running-batch", File: "internal/syncutil/merge.go", Old: "\t\tm.pending = append(m.pending, item)\n", New: "\t\tm.items = append(m.items, item)\n", Expect: "C14.R1"},
+	{Name: "waiter-returns-nil", File: "internal/syncutil/merge.go", Old: "\treturn status.err\n", New: "\t_ = status.err\n\treturn nil\n", Expect: "C14.R1"},
+	{Name: "commit-keeps-window-open", File: "internal/syncutil/merge.go", Old: "\tm.committed = true\n", New: "", Expect: "C14.R1"},
+	{Name: "main-reports-success-after-failed-resolve", File: "internal/syncutil/merge.go", Old: "\t\tm.complete(err)\n\t\treturn err\n", New: "\t\tm.complete(nil)\n\t\treturn err\n", Expect: "C14.R1"},
+	{Name: "second-main-token", File: "internal/syncutil/merge.go", Old: "\tif m.status == nil {\n\t\tm.status = make(chan mergeStatus, 1)\n\t\tm.status <- mergeStatus{main: true}\n\t}\n", New: "\tif m.status == nil {\n\t\tm.status = make(chan mergeStatus, 1)\n\t}\n\tif len(m.items) == 0 {\n\t\tm.status <- mergeStatus{main: true}\n\t}\n", Expect: "C14.R1"},
+	// R2
+	{Name: "release-closure-without-lock", File: "internal/syncutil/pool.go", Old: "\treturn &item.value, func() {\n\t\tp.lock.Lock()\n\t\tdefer p.lock.Unlock()\n", New: "\treturn &item.value, func() {\n", Expect: "C14.R2"},
+	{Name: "reopen-before-lock", File: "internal/syncutil/merge.go", Old: "\tm.lock.Lock()\n\tdefer m.lock.Unlock()\n\n\tm.committed = false\n", New: "\tm.committed = false\n\tm.lock.Lock()\n\tdefer m.lock.Unlock()\n\n", Expect: "C14.R2"},
+	{Name: "commit-without-lock", File: "internal/syncutil/merge.go", Old: "func (m *Merge[T]) commit() []T {\n\tm.lock.Lock()\n\tdefer m.lock.Unlock()\n", New: "func (m *Merge[T]) commit() []T {\n", Expect: "C14.R2"},
+	// R3
+	{Name: "no-update-falls-through-to-delete", File: "registry/remote/repository.go", Old: "\t\tif err != nil {\n\t\t\tif err == errNoReferrerUpdate {\n\t\t\t\treturn nil\n\t\t\t}\n\t\t\treturn err\n\t\t}", New: "\t\tif err != nil && err != errNoReferrerUpdate {\n\t\t\treturn err\n\t\t}", Expect: "C14.R3"},
+	{Name: "skip-gc-ignored", File: "registry/remote/repository.go", Old: "\t\tif s.repo.SkipReferrersGC || oldIndexDesc == nil {\n\t\t\treturn nil\n\t\t}", New: "\t\tif oldIndexDesc == nil {\n\t\t\treturn nil\n\t\t}", Expect: "C14.R3"},
+	{Name: "delete-failure-not-marked", File: "registry/remote/repository.go", Old: "\t\t\treturn &ReferrersError{\n\t\t\t\tOp:      opDeleteReferrersIndex,\n", New: "\t\t\treturn &ReferrersError{\n\t\t\t\tOp:      \"DeleteIndex\",\n", Expect: "C14.R3"},
+	{Name: "merge-not-from-pool", File: "registry/remote/repository.go", Old: "\tmerge, done := s.repo.referrersMergePool.Get(referrersTag)\n\tdefer done()\n\treturn merge.Do(change, prepare, update)", New: "\tvar merge syncutil.Merge[referrerChange]\n\treturn merge.Do(change, prepare, update)", Expect: "C14.R3"},
+	{Name: "pool-entry-released-early", File: "registry/remote/repository.go", Old: "\tmerge, done := s.repo.referrersMergePool.Get(referrersTag)\n\tdefer done()\n", New: "\tmerge, done := s.repo.referrersMergePool.Get(referrersTag)\n\tdone()\n", Expect: "C14.R3"},
+	{Name: "index-push-error-ignored", File: "registry/remote/repository.go", Old: "\t\t\tif err := s.push(ctx, newIndexDesc, bytes.NewReader(newIndex), referrersTag); err != nil {\n\t\t\t\treturn fmt.Errorf(\"failed to push referrers index tagged by %s: %w\", referrersTag, err)\n\t\t\t}", New: "\t\t\t_ = s.push(ctx, newIndexDesc, bytes.NewReader(newIndex), referrersTag)", Expect: "C14.R3"},
+	{Name: "delete-indexing-ignores-ping", File: "registry/remote/repository.go", Old: "\tif ok {\n\t\t// referrers API is available, no client-side indexing needed\n\t\treturn nil\n\t}\n\treturn s.updateReferrersIndex(", New: "\t_ = ok\n\treturn s.updateReferrersIndex(", Expect: "C14.R3.indexing"},
+	{Name: "push-indexing-skipped-for-index-manifests", File: "registry/remote/repository.go", Old: "\t\tsubject = *manifest.Subject\n\t\tdesc.ArtifactType = manifest.ArtifactType\n\t\tdesc.Annotations = manifest.Annotations\n\tdefault:", New: "\t\treturn nil\n\tdefault:", Expect: "C14.R3.indexing"},
+	{Name: "tag-resolved-outside-merge", File: "registry/remote/repository.go", Old: "\t\t\t\t// valid case: no old referrers index\n\t\t\t\treturn nil\n", New: "\t\t\t\t_ = s.repo.Tag(ctx, subject, referrersTag)\n\t\t\t\treturn nil\n", Expect: "C14.R3.referrers-tag-users"},
+	// R4
+	{Name: "capability-swapped-unconditionally", File: "registry/remote/repository.go", Old: "if swapped := atomic.CompareAndSwapInt32(&r.referrersState, referrersStateUnknown, state); !swapped {", New: "if swapped := atomic.SwapInt32(&r.referrersState, state) == referrersStateUnknown; !swapped {", Expect: "C14.R4"},
+	{Name: "cas-from-any-state", File: "registry/remote/repository.go", Old: "atomic.CompareAndSwapInt32(&r.referrersState, referrersStateUnknown, state)", New: "atomic.CompareAndSwapInt32(&r.referrersState, r.loadReferrersState(), state)", Expect: "C14.R4"},
+	{Name: "clone-copies-state", File: "registry/remote/repository.go", Old: "\t\tSkipReferrersGC:      r.SkipReferrersGC,\n\t\tHandleWarning:", New: "\t\tSkipReferrersGC:      r.SkipReferrersGC,\n\t\treferrersState:       r.referrersState,\n\t\tHandleWarning:", Expect: "C14.R4"},
+}
